@@ -160,8 +160,15 @@ def concat_spec(script):
 
 
 def applied_text(eng):
+    """what the engine says it has applied since the backend was initialised (Engine.run_progs), rendered here rather than by the library's
+    own printing (Command.__str__ cannot print every operation: a Catstate's text parameter makes it raise)"""
+    from ..spec import par_repr
     buf = []
-    eng.print_applied(print_fn=lambda s="": buf.append(str(s)))
+    for k_, prog_ in enumerate(eng.run_progs):
+        buf.append("Run %d:" % k_)
+        for c_ in prog_.circuit or []:
+            buf.append("%s%s(%s) | %s" % (type(c_.op).__name__, ".H" if getattr(c_.op, "dagger", False) else "",
+                                           json.dumps([par_repr(x_) for x_ in getattr(c_.op, "p", [])]), [r_.ind for r_ in c_.reg]))
     return "\n".join(buf)
 
 
@@ -171,9 +178,13 @@ class Runner:
         self.outcomes = SeededOutcomes(script["tape"], w)
         self.plan = FaultPlan()
         self.env = SimEnv(w, self.outcomes, self.plan)
+        # one options dictionary the user keeps and hands to every engine of the session (an input like the programs: never to be altered)
+        self.user_opts = copy.deepcopy(script["opts"])
 
     def engine(self, opts=None):
-        return self.env.engine(self.s["backend"], self.s["opts"] if opts is None else opts)
+        if opts is None:
+            return self.env.engine(self.s["backend"], self.user_opts, copy=False)
+        return self.env.engine(self.s["backend"], opts)
 
     def run_chain(self, eng, progs, pattern):
         """returns (state_obs, samples_obs of the last call, n_results)"""
@@ -204,10 +215,19 @@ def check_fps(w, before, progs, after_what, feats=()):
 
 
 def execute(script, w):
+    R = Runner(script, w)
+    try:
+        _execute(script, w, R)
+    finally:
+        if R.user_opts != script["opts"] and not w.violations:
+            w.violation("inputs-untouched", "backend_options-dictionary-handed-to-the-engines", {"before": script["opts"], "after": {k_: R.user_opts[k_] for k_ in sorted(R.user_opts)}},
+                        ["backend=" + script["backend"]])
+
+
+def _execute(script, w, R):
     import strawberryfields as sf
     from strawberryfields.program_utils import CircuitError
 
-    R = Runner(script, w)
     backend = script["backend"]
     feats = ["backend=" + backend, "segments=%d" % len(script["pool"])]
     with R.env:
@@ -338,6 +358,8 @@ def nonfault_checks(script, w, R, progs, fp0, e1, ref_state, ref_samples, ref_ap
                 c = p.optimize()
                 if c is p:
                     w.violation("inputs-untouched", "optimize-returns-self", None, feats)
+            elif any(type(c_.op).__name__ == "Catstate" for c_ in p.circuit):
+                w.probes["print_skipped_unprintable_operation"] += 1  # str() of a Catstate command raises (text parameter) - not this property's business
             else:
                 p.print(print_fn=lambda *a: None)
         except Exception as ex:  # noqa
